@@ -170,3 +170,21 @@ def parse_out(line):
         net += n.split(" ") if n else []
         app += a.split(" ") if a else []
     return net, app
+
+
+def few_cuts(rng, total, around=None, maxpieces=8):
+    """segmentation with few pieces (stack scenarios pace every write)"""
+    pos = set()
+    if around is not None:
+        for d in (-1, 0, 1, 3):
+            if 0 < around + d < total and rng.random() < 0.6:
+                pos.add(around + d)
+    for _ in range(rng.randrange(0, maxpieces)):
+        if total > 1:
+            pos.add(rng.randrange(1, total))
+    pos = sorted(pos)[:maxpieces]
+    cuts, prev = [], 0
+    for p in pos:
+        cuts.append(p - prev)
+        prev = p
+    return W.cuts_str(cuts)
